@@ -442,6 +442,42 @@ class Interp:
         self.global_cache[key] = v
         return v
 
+    def _module_init(self, mod):
+        """A module whose tables are filled by statements after the assignment (a loop, TABLE[k] = v, TABLE += ...): its
+        top-level assignments and loops are executed once, in order, so that the tables hold what they hold after import.
+        Values a rule has put in place beforehand stay as the rule set them."""
+        done = self.__dict__.setdefault("_modules_initialised", set())
+        if mod.name in done:
+            return
+        done.add(mod.name)
+        tree = getattr(mod, "tree", None)
+        body = list(getattr(tree, "body", []) or [])
+        def fills(n):
+            if isinstance(n, (ast.For, ast.While, ast.AugAssign)):
+                return True
+            return isinstance(n, ast.Assign) and any(isinstance(t_, ast.Subscript) for t_ in n.targets)
+        if not any(fills(n) for n in body):
+            return
+        preset = {k: v for k, v in self.global_cache.items() if k[0] == mod.name}
+        names = set()
+        for n in body:
+            for x in ast.walk(n) if isinstance(n, (ast.Assign, ast.AugAssign, ast.For, ast.While, ast.If, ast.Delete)) else ():
+                if isinstance(x, ast.Name) and isinstance(x.ctx, (ast.Store, ast.Del)):
+                    names.add(x.id)
+        fr = Frame(None, {}, mod=mod)
+        fr.globals_ = set(names)
+        for n in body:
+            if not isinstance(n, (ast.Assign, ast.AugAssign, ast.For, ast.While, ast.Delete)):
+                continue
+            try:
+                self.exec_block([n], fr)
+            except (CannotDecide, RaiseEx):
+                # what cannot be evaluated here is evaluated the plain way when it is asked for
+                for x in ast.walk(n):
+                    if isinstance(x, ast.Name) and isinstance(x.ctx, ast.Store):
+                        self.global_cache.pop((mod.name, x.id), None)
+        self.global_cache.update(preset)
+
     def entity_value(self, r):
         if r[0] == "func":
             return AFunc(r[1])
@@ -452,6 +488,9 @@ class Interp:
         if r[0] == "global":
             mod, name = r[1], r[2]
             key = (mod.name, name)
+            if key in self.global_cache:
+                return self.global_cache[key]
+            self._module_init(mod)
             if key in self.global_cache:
                 return self.global_cache[key]
             fr = Frame(None, {}, mod=mod)
@@ -1574,6 +1613,17 @@ class Interp:
                 raise RaiseEx("KeyError", node)
             except TypeError:
                 raise RaiseEx("TypeError", node)
+        if isinstance(recv, (bytes, str)) and name == "join" and len(args) == 1 and isinstance(args[0], (list, tuple)) \
+                and any(not isinstance(x_, (bytes, bytearray, str)) for x_ in args[0]) and not isinstance(recv, AbsStr) \
+                and (isinstance(recv, bytes) or not _has_abs(list(args[0])) or True):
+            # sep.join(parts) with abstract parts: the parts added up, the separator between them
+            parts = list(args[0])
+            acc = parts[0] if parts else recv[:0]
+            for x_ in parts[1:]:
+                if len(recv):
+                    acc = self.binop(ast.Add, acc, recv, node)
+                acc = self.binop(ast.Add, acc, x_, node)
+            return acc
         if isinstance(recv, (bytes, bytearray)) and not _has_abs(args) and name in (
                 "join", "decode", "hex", "startswith", "endswith", "find", "index", "count", "replace", "split", "strip"):
             try:
